@@ -70,10 +70,23 @@ def build_state(ctx: Ctx, world: lib.World, prep: Prepared):
         atoms[a] = SymBool(prep.vars.atom(a))
     fl = {}
     for f in prep.all_fluents:
-        fl[f] = SymReal(prep.vars.fluent(f))
+        if f not in _undefined(prep):
+            fl[f] = SymReal(prep.vars.fluent(f))
     state, keys = world.make_state(atoms, fl)
     _route(world, prep.task, state)
+    _undefined_keys(world, prep, keys)
     return state, keys
+
+
+def _undefined(prep):
+    """fluents the state does NOT define (task['undefined_fluents']): the library reads them as 0, the oracle's variable of such a
+    fluent is assumed to be 0, and the state simply has no entry for it"""
+    return [f for f in prep.task.get("undefined_fluents", []) if f in prep.all_fluents]
+
+
+def _undefined_keys(world, prep, keys):
+    for f in _undefined(prep):
+        keys.setdefault(f, world.ground_fluent(f).untyped_representation)
 
 
 def _route(world, task, state):
@@ -86,9 +99,10 @@ def _route(world, task, state):
 
 def concrete_state(world: lib.World, prep: Prepared, atom_vals: Dict[str, bool], fl_vals: Dict[str, float]):
     atoms = {a: bool(atom_vals.get(a, False)) for a in prep.sym_atoms}
-    fl = {f: fl_vals[f] for f in prep.all_fluents}
+    fl = {f: fl_vals[f] for f in prep.all_fluents if f not in _undefined(prep)}
     state, keys = world.make_state(atoms, fl)
     _route(world, prep.task, state)
+    _undefined_keys(world, prep, keys)
     return state, keys
 
 
@@ -292,6 +306,7 @@ def replay_concrete(task, atoms: Dict[str, bool], fl_float: Dict[str, float]):
     exact expectation for the same doubles."""
     prep = Prepared(task)
     world = make_world(task)
+    fl_float = {f: (0.0 if f in _undefined(prep) else v) for f, v in fl_float.items()}
     state, keys = concrete_state(world, prep, atoms, fl_float)
     fl_exact = {f: Fraction(v) for f, v in fl_float.items()}
     cs = prep.cs
@@ -346,6 +361,8 @@ def replay_concrete(task, atoms: Dict[str, bool], fl_float: Dict[str, float]):
                       "atoms_only_in_oracle": sorted(exp_atoms - got_atoms)})
     for f, ev in exp_fl.items():
         gv = got_fl.get(f)
+        if gv is None and f in _undefined(prep) and ev == 0:
+            continue  # not defined before, not written (or written with 0): absent / zero afterwards
         if gv is None or abs(Fraction(gv) - ev) > Fraction(1, 10 ** 9) * max(1, abs(ev)):
             diffs.append({"fluent": f, "library": gv, "oracle": float(ev)})
     after = lib.state_digest(state)
@@ -399,6 +416,8 @@ def run_task(task) -> dict:
                     ok = ctx.assume(z3.substitute(cs.defined, *[(prep.vars.fluent(f), z3.Real("w2" + f)) for f in prep.all_fluents]))
             else:
                 ok = ctx.assume(z3.And(cs.defined, cs.pre, cs.consistent))
+            for f in _undefined(prep):
+                ok = ok and ctx.assume(prep.vars.fluent(f) == 0)
             if not ok:
                 return ("vacuous", None, None, None)
             world = shared_world[0]
@@ -461,7 +480,12 @@ def run_task(task) -> dict:
                 obs.append((f"fluent {name}", ve == t))
             for name in prep.all_fluents:
                 if name not in seen:
-                    obs.append((f"fluent {name} missing from successor", z3.BoolVal(False)))
+                    if name in _undefined(prep):
+                        # not defined before: absent afterwards is right exactly when nothing wrote it on this path
+                        obs.append((f"fluent {name} absent from the successor although written",
+                                    c.next_fluent.get(name, prep.vars.fluent(name)) == prep.vars.fluent(name)))
+                    else:
+                        obs.append((f"fluent {name} missing from successor", z3.BoolVal(False)))
             return obs
 
         def on_path(ctx: Ctx, pr):
